@@ -114,21 +114,9 @@ theorem polDistance_fixed (sx sy cx cy : ℝ) :
     polDistance (bearingDistance sy sx cy cx).2 0 sx sy cx cy = 0 := by
   simp [polDistance]
 
-theorem rhsDistance_fixed (sx sy cx cy : ℝ) :
-    rhsDistance (bearingDistance sy sx cy cx).2 sx sy cx cy = 0 := by
-  simp [rhsDistance]
-
 theorem polSDistance_fixed (dx dy dz : ℝ) :
     polSDistance (Real.sqrt (dx * dx + dy * dy + dz * dz)) 0 dx dy dz = 0 := by
   simp [polSDistance]
-
-theorem rhsSDistance_fixed (dx dy dz : ℝ) :
-    rhsSDistance (Real.sqrt (dx * dx + dy * dy + dz * dz)) dx dy dz = 0 := by
-  simp [rhsSDistance]
-
-theorem rhsHDiff_fixed (zs zc : ℝ) : rhsHDiff (zc - zs) zs zc = 0 := by simp [rhsHDiff]
-theorem rhsDiff_fixed (a b : ℝ) : rhsDiff (b - a) a b = 0 := by simp [rhsDiff]
-theorem rhsCoord_fixed (c : ℝ) : rhsCoord c c = 0 := by simp [rhsCoord]
 
 /-- direction = bearing − orientation reduced to [0,2π): value + orientation − bearing ∈ {0, 2π} -/
 theorem polDirection_fixed (n : ℕ) (val orp sx sy cx cy : ℝ)
@@ -141,6 +129,24 @@ theorem polDirection_fixed (n : ℕ) (val orp sx sy cx cy : ℝ)
   · rw [h, sub_self, wrap_mid _ _ (by linarith) (by linarith)]; simp
   · rw [h]
     have : (bearingDistance sy sx cy cx).1 + 2 * Real.pi - (bearingDistance sy sx cy cx).1 = 2 * Real.pi := by ring
+    rw [this, wrap_hi _ _ (by linarith) (by linarith)]; simp
+
+/-- angle = bearing(fs) − bearing(bs) reduced to [0,2π): value − ds2 + ds ∈ {0, 2π} -/
+theorem polAngle_fixed (n : ℕ) (val sx sy cx cy cx2 cy2 : ℝ)
+    (h : val = (bearingDistance sy sx cy2 cx2).1 - (bearingDistance sy sx cy cx).1 ∨
+         val = (bearingDistance sy sx cy2 cx2).1 - (bearingDistance sy sx cy cx).1 + 2 * Real.pi) :
+    polAngle (n + 1) val 0 sx sy cx cy cx2 cy2 = 0 := by
+  have hp := Real.pi_pos
+  unfold polAngle
+  simp only [cc2r_zero, add_eq, sub_eq, mul_eq, add_zero]
+  rcases h with h | h
+  · rw [h]
+    have : (bearingDistance sy sx cy2 cx2).1 - (bearingDistance sy sx cy cx).1 - (bearingDistance sy sx cy2 cx2).1
+        + (bearingDistance sy sx cy cx).1 = 0 := by ring
+    rw [this, wrap_mid _ _ (by linarith) (by linarith)]; simp
+  · rw [h]
+    have : (bearingDistance sy sx cy2 cx2).1 - (bearingDistance sy sx cy cx).1 + 2 * Real.pi
+        - (bearingDistance sy sx cy2 cx2).1 + (bearingDistance sy sx cy cx).1 = 2 * Real.pi := by ring
     rw [this, wrap_hi _ _ (by linarith) (by linarith)]; simp
 
 theorem testLin_zeros (k : ℕ) : testLin (List.replicate k (0 : ℝ)) = false := by
